@@ -11,7 +11,7 @@ from vfw.core import Violation, must_return
 from vfw.model import stencil as M
 
 PROPERTY = "C14"
-SIZES = {"quick": 2400, "thorough": 80000}
+SIZES = {"quick": 6000, "thorough": 80000}
 RULE = (
     "Hypothesis draws 1-3 axes with arbitrary dimension names (incl. names that are substrings of each other or of the words "
     "used in the attributes) and dataset dimension order; COMODO: any position set, cell count >= 1 (inner needs >= 2), "
